@@ -25,6 +25,16 @@ class Prop(PropBase):
                     continue
                 cfg = scen.rand_cfg(rng, dense=0)
                 scn_all.append(scen.mixed_scenario(rng, self.L, t, f'c01_{t}_{r}', cfg))
+        # jumbo packets whose sub-packet numbering rewinds in the middle of a packet (a frame boundary inside one MSOP packet): every
+        # sub-packet behind the boundary is still decoded, into the new frame
+        l = self.L['RSM1_JUMBO']
+        for k, first in enumerate((65536 - 20, 65536 - 1, 65536 - 62)):
+            s = scen.Scn(f'c01_jumbo_rewind_{k}')
+            s.drv(0, l, pktgen.Cfg(wait=0, dense=0))
+            s.pkt(0, scen.mems_msop(rng, l, first - 63))
+            s.pkt(0, scen.mems_msop(rng, l, first))            # numbers first .. 65535, 0 .. : the rewind falls inside this packet
+            s.pkt(0, scen.mems_msop(rng, l, (first + 63) % 65536))
+            scn_all.append(s.text())
         out.append(('mixed', '\n'.join(scn_all) + '\n'))
         # the overflow guard on its own: frame sizes around the documented 1,000,000-point limit
         ks = [f'K overflow {n}' for n in (1, 999999, 1000000, 1000001, 1000002, 1500000, rng.randrange(1, 999999), rng.randrange(1000001, 1200000))]
